@@ -22,6 +22,9 @@ ASSUMPTIONS = ['trees are compared the way lark compares them (tokens by type an
 O_ACYC = gramgen.Opts(terms='tok', max_rules=4, shaping=True, templates=True, ignore=True, acyclic=True)
 O_ACYC_OVL = gramgen.Opts(terms='ovl', max_rules=3, shaping=True, ignore=True, acyclic=True)
 # cyclic grammars: the explicit tree can be exponentially large in the input length (not a hang), so inputs stay <= 4 tokens
+# regexp terminals with several match lengths (ambiguity *inside* terminals under dynamic_complete), restricted to regexps for
+# which the listed C01 deviations cannot occur; ignored terminals are single fixed strings
+O_ACYC_RE = gramgen.Opts(terms='re', max_rules=3, shaping=True, ignore=True, acyclic=True, re_safe=True, ignore_kinds='tok')
 O_ANY = gramgen.Opts(terms='tok', max_rules=3, shaping=True, templates=True, ignore=True, acyclic=False, max_alts=3, max_items=3, depth=1)
 MODE = {'basic': 'exact', 'dynamic': 'longest', 'dynamic_complete': 'exact'}
 
@@ -61,7 +64,7 @@ def check(case, ctx):
     info = gram.analyse(g)
     conc = info['concrete']
     acyclic = not info['cyclic']
-    lexers = ('basic', 'dynamic', 'dynamic_complete') if fam == 'tok' else ('dynamic', 'dynamic_complete')
+    lexers = ('basic', 'dynamic', 'dynamic_complete') if fam == 'tok' else (('dynamic_complete',) if fam == 're' else ('dynamic', 'dynamic_complete'))
     parsers = {}
     for lx in lexers:
         try:
@@ -150,4 +153,5 @@ def phases(tier):
     k = 12 if tier == 'thorough' else 1
     return [Phase('acyclic-tok', 'hypothesis', strategy=strat(O_ACYC, 'tok', 3, 8), max_examples=32000 * k),
             Phase('acyclic-ovl', 'hypothesis', strategy=strat(O_ACYC_OVL, 'ovl', 3, 8), max_examples=16000 * k),
+            Phase('acyclic-re-dynamic-complete', 'hypothesis', strategy=strat(O_ACYC_RE, 're', 3, 7), max_examples=12000 * k),
             Phase('any-tok', 'hypothesis', strategy=strat(O_ANY, 'tok', 3, 4), max_examples=16000 * k)]
